@@ -15,7 +15,7 @@ int GCGMultchecksum(struct msa* msa)
         int idx;
 
         for (idx = 0; idx < msa->numseq; idx++){
-                chk = (chk + GCGchecksum(msa->sequences[idx]->seq,  msa->sequences[idx]->len)) % 10000;
+                chk = (chk + GCGchecksum(msa->sequences[idx]->seq,  msa->alnlen)) % 10000;
         }
         return chk;
 }
